@@ -23,6 +23,9 @@ type cfgDef struct {
 var configs = []cfgDef{{"generic", "verif,noasmtest"}, {"amd64", "verif"}}
 
 func main() {
+	if v := os.Getenv("GOCV_EXTERN"); v != "" {
+		externSpec = v // development aid: try an edited extern.spec without installing it
+	}
 	if len(os.Args) < 2 {
 		fmt.Fprintln(os.Stderr, "usage: gocv verify|check|sweep|layout ...")
 		os.Exit(2)
